@@ -110,9 +110,9 @@ pub fn build_pass_0(
 const MAX_MACRO_DEPTH: usize = 64;
 /// How long a line of a macro body may get by the substitution of arguments
 const MAX_EXPANDED_LINE: usize = 65536;
-/// How many lines all macro calls of one build may expand to: every word of the largest flash
-/// filled by a line of its own
-const MAX_EXPANDED_ITEMS: usize = 4 * 1024 * 1024;
+/// How many lines all macro calls of one build may expand to: eight times the words of the largest
+/// flash an AVR has, and about two seconds of reading
+const MAX_EXPANDED_ITEMS: usize = 1024 * 1024;
 /// How many macro calls one build may expand
 const MAX_MACRO_CALLS: usize = 200_000;
 
